@@ -44,6 +44,7 @@ class Clock:
         self.seq = 0
         self.bad = None
         self.slept = 0
+        self.checked = 0
 
     # ---- stubs -------------------------------------------------------------------------------
     def time(self):
@@ -86,8 +87,11 @@ class Clock:
                 fut.set_result(None)
 
     def check_rate(self):
+        """Each pair (t_i, t_{i+count}) is compared once, when t_{i+count} appears."""
         c = self.count
-        for i in range(len(self.adm) - c):
+        while self.checked + c < len(self.adm):
+            i = self.checked
+            self.checked += 1
             if not self.adm[i + c] - self.adm[i] >= self.window:
                 raise Bad('rate: more than count admissions inside one half-open window of the configured length')
 
@@ -214,6 +218,7 @@ check_3, reach_3 = _mk(3)
 check_4, reach_4 = _mk(4)
 check_5, reach_5 = _mk(5)
 check_6, reach_6 = _mk(6)
+check_7, reach_7 = _mk(7)
 
 
 def replay(args, meta):
